@@ -175,3 +175,53 @@ def host_model_inputs(res: Dict[str, Any]):
         if rows[nu[1]]["stream"] == -1 and rows[nv[1]]["stream"] == -1:
             impl_edges.append([nu[1], 1 if nu[3] else 0, nv[1], 1 if nv[3] else 0, w, ty[t], attrib.get((be[0], be[1]), -2)])
     return threads, sorted(impl_edges)
+
+
+def queue_lengths(ta, rank) -> Dict[int, int]:
+    """the queue-length series the device-side builder joins to the activities (event id -> queue length after that row)"""
+    from hta.analyzers.trace_counters import TraceCounters
+    q = TraceCounters._get_queue_length_time_series_for_rank(ta.t, rank)
+    if q is None:
+        return {}
+    return {int(i): int(v) for i, v in q["queue_length"].items() if v == v}
+
+
+def dev_model_inputs(res: Dict[str, Any]):
+    """rows for coq/model/C08_Dev.v in the order of the builder's sort (activities by start, sync records by end, ties by end, then by
+    position), and the implementation's edges that touch the device side, in the model's encoding"""
+    rows = {r["idx"]: r for r in res["rows"]}
+    g = res["graph"]
+    has_nodes = {x[1] for x in g["nodes"]}
+    q = {int(k): v for k, v in res.get("queue", {}).items()}
+    sel = []
+    for i in res["clipped"]:
+        r = rows[i]
+        if not ((r["stream"] != -1 or r["name"] in ("Event Sync", "Context Sync")) and r["icorr"] >= 0):
+            continue
+        end = r["ts"] + r["dur"]
+        if r["cat"] == "cuda_sync":
+            rt = r["icorr"]
+            rt_end = rows[rt]["ts"] + rows[rt]["dur"] if rt in rows else 0
+            if r["name"] == "Stream Sync":
+                lit = ("DS", r["stream"], rt, rt_end, rt in has_nodes)
+            elif r["name"] == "Context Sync":
+                lit = ("DC", rt, rt_end, rt in has_nodes)
+            else:
+                lit = ("DE",)
+            sel.append(((end, end, i), lit))
+        else:
+            rt = r["icorr"]
+            rt_ts = rows[rt]["ts"] if rt in rows else 0
+            lit = ("DK", i, r["stream"], r["ts"], end, rt, rt_ts, rt in has_nodes, q.get(rt, -1), q.get(i, -1))
+            sel.append(((r["ts"], end, i), lit))
+    sel.sort(key=lambda x: x[0])
+    node = {x[0]: x for x in g["nodes"]}
+    attrib = {(u, v): ev for u, v, ev in g["attrib"]}
+    ty = {"OPERATOR_KERNEL": 0, "DEPENDENCY": 1, "KERNEL_LAUNCH_DELAY": 2, "KERNEL_KERNEL_DELAY": 3, "SYNC_DEPENDENCY": 4}
+    impl_edges = []
+    for u, v, w, _wa, t, be in g["edges"]:
+        nu, nv = node[be[0]], node[be[1]]
+        if rows[nu[1]]["stream"] == -1 and rows[nv[1]]["stream"] == -1:
+            continue
+        impl_edges.append([nu[1], 1 if nu[3] else 0, nv[1], 1 if nv[3] else 0, w, ty[t], attrib.get((be[0], be[1]), -2)])
+    return [lit for _, lit in sel], sorted(impl_edges)
